@@ -604,7 +604,7 @@ def replay(ctx, rep):
         directed(c2)
         hit = [v for v in c2.violations if v['key'] == rep['key']]
         return bool(hit), (hit[0]['observed'] if hit else 'directed case passes')
-    s, wrote = tg.replay_script(case['script'])
+    s, wrote = tg.replay_script(case)
     try:
         t = s.t
         if t.died:
